@@ -63,6 +63,13 @@ func newDuplexHTTPCall(
 		url,
 		pipeReader,
 	)
+	if err != nil {
+		// NewRequestWithContext returns a nil request on failure (for example for
+		// a URL that url.ParseRequestURI accepts but url.Parse rejects). Keep a
+		// placeholder so that the header accessors below and in the protocol
+		// clients keep working; it's never sent.
+		request = &http.Request{Method: http.MethodPost}
+	}
 	request.Header = header
 	client := &duplexHTTPCall{
 		ctx:               ctx,
@@ -80,6 +87,9 @@ func newDuplexHTTPCall(
 		client.sendRequestOnce.Do(func() {})
 		connectErr := errorf(CodeUnavailable, "construct *http.Request: %w", err)
 		client.SetError(connectErr)
+		// makeRequest will never run, so nothing else would unblock callers
+		// waiting for the response.
+		close(client.responseReady)
 	}
 	return client
 }
